@@ -287,8 +287,8 @@ def viol(sig, msg, trace):
 
 
 def run_shard(ctx):
-    n = 40 if ctx.tier == 'quick' else 800
-    ctx.set_budget(75 if ctx.tier == 'quick' else 2400)
+    n = 40 if ctx.tier == 'quick' else 3200
+    ctx.set_budget(75 if ctx.tier == 'quick' else 1100)
     explore(ctx, strategy(), run_case, n)
 
 
